@@ -276,8 +276,8 @@ class Schema:
 
 # ---------------------------------------------------------------------- generation
 class Gen:
-    def __init__(self, rng, size='medium', nfiles=None):
-        self.r, self.size, self.n, self.nfiles = rng, size, 0, nfiles
+    def __init__(self, rng, size='medium', nfiles=None, shadow=False):
+        self.r, self.size, self.n, self.nfiles, self.shadow = rng, size, 0, nfiles, shadow
         self.s = Schema()
 
     def uid(self, p):
@@ -372,9 +372,59 @@ class Gen:
                 fl.root_type = r.choice(vt)
             if r.random() < 0.5: fl.file_identifier = ''.join(r.choice('ABCDEFGHIJKLMNOPQRSTUVWXYZ0123456789') for _ in range(4))
             if r.random() < 0.3: fl.file_extension = r.choice(['bin', 'dat', 'mon'])
+            if self.shadow and fl is files[0]:
+                self.add_shadowing(fl)
             for d in fl.decls: d.file = fl
         # group declarations by namespace runs is not needed: render emits a namespace line whenever it changes
         return s
+
+    def add_shadowing(self, fl):
+        """name-resolution stress: a namespace 3-4 levels deep whose intermediate levels are (mostly) never declared; the SAME simple
+        type names declared with DIFFERENT layouts in the global namespace and in one or two ancestors; referenced unqualified from the
+        deep namespace. FlatBuffers / flatcc rule: an unqualified name binds to the nearest enclosing namespace that declares it; the
+        AST records that binding (the field types point at the nearest holder's declarations), so offsets / sizes / enum widths /
+        defaults / vector element sizes computed from the AST expose a wrong binding."""
+        r, s = self.r, self.s
+        depth = r.choice([3, 3, 4])
+        deep = [self.uid(p) for p in ('Lib', 'Core', 'Shapes', 'Inner')[:depth]]
+        # holders: the global namespace always (the wrong fallback), the top ancestor always, an intermediate one sometimes
+        holders = [[], deep[:1]]
+        if r.random() < 0.35: holders.append(deep[:r.randint(2, depth - 1)])
+        sname, ename, tname = self.uid('Shade'), self.uid('Tone'), self.uid('Plate')
+        mnames = [self.uid('M') for _ in range(3)]
+        layouts = r.sample([['ubyte'], ['ushort', 'ubyte'], ['uint', 'ubyte'], ['double'], ['ulong', 'uint', 'ubyte'], ['short'] * 5, ['float', 'double']], len(holders))
+        etypes = r.sample(['ubyte', 'short', 'int', 'long', 'ushort', 'ulong'], len(holders))
+        made = []
+        for h, lay, et, k in zip(holders, layouts, etypes, range(len(holders))):
+            st = Struct(sname, h); st.fields = [{'name': 'f%s%d' % ('xyzuvw'[j], j), 'type': ('scalar', t)} for j, t in enumerate(lay)]
+            if r.random() < 0.3: st.force_align = 16
+            en = Enum(ename, h, et); en.members = [[m, (k + 1) * 10 + j * (k + 2)] for j, m in enumerate(mnames)]
+            tb = Table(tname, h); tb.fields = [{'name': 'g%d' % j, 'type': ('scalar', r.choice(['byte', 'int', 'long'])), 'default': ('int', k + j), 'attrs': []} for j in range(k + 1)]
+            made.append((h, st, en, tb))
+        r.shuffle(made)                              # declaration order must not matter
+        for h, st, en, tb in made: fl.decls += [en, st, tb]
+        # the nearest enclosing holder for a user in namespace `ns`
+        def nearest(ns):
+            best = None
+            for h, st, en, tb in made:
+                if h == ns[:len(h)] and (best is None or len(h) > len(best[0])): best = (h, st, en, tb)
+            return best
+        users = [deep] + ([deep[:-1]] if (depth == 4 and r.random() < 0.5) else [])
+        for ns in users:
+            h, st, en, tb = nearest(ns)
+            vals = en.values()
+            us = Struct(self.uid('User'), ns)
+            us.fields = [{'name': 'fa1', 'type': ('scalar', 'byte')}, {'name': 'fs2', 'type': ('struct', st)}, {'name': 'ft3', 'type': ('enum', en)},
+                         {'name': 'fr4', 'type': ('array', ('struct', st), 2)}, {'name': 'fe5', 'type': ('array', ('enum', en), 3)}]
+            ut = Table(self.uid('UserT'), ns)
+            nm, v = r.choice(vals)
+            ut.fields = [{'name': 'hs1', 'type': ('struct', st), 'attrs': []}, {'name': 'ht2', 'type': ('enum', en), 'default': ('enum', nm, v), 'attrs': []},
+                         {'name': 'hv3', 'type': ('vec', ('struct', st)), 'attrs': []}, {'name': 'he4', 'type': ('vec', ('enum', en)), 'attrs': []},
+                         {'name': 'hp5', 'type': ('table', tb), 'attrs': []}, {'name': 'hq6', 'type': ('vec', ('table', tb)), 'attrs': []}]
+            uu = Union(self.uid('UserU'), ns); uu.members = [[tb.name, ('table', tb), None, False], [st.name, ('struct', st), None, False]]
+            ut.fields.append({'name': 'hu7', 'type': ('union', uu), 'attrs': []})
+            fl.decls += [us, uu, ut]
+        s.features.add('shadowed_names')
 
     def gen_enum(self, ns, uattrs):
         r = self.r
@@ -579,8 +629,8 @@ class Gen:
                 f['id'] = nxt + (1 if isu else 0); nxt = f['id'] + 1
 
 
-def gen_schema(rng, size='medium', nfiles=None):
-    return Gen(rng, size, nfiles).gen()
+def gen_schema(rng, size='medium', nfiles=None, shadow=False):
+    return Gen(rng, size, nfiles, shadow).gen()
 
 
 TOKEN_RE = r'[A-Za-z_][A-Za-z0-9_.]*|\d+\.?\d*|"[^"\n]*"|\s+|.'
